@@ -90,11 +90,34 @@ def cases(tier, seed, rnd):
                                       chain=chain, form=form, front=front))
             for i in range(0, len(specs), 2):
                 cs.append(dict(k='M', front=front, base=base, part=i // 2, specs=specs[i:i + 2]))
+    # ... and for worst-case expectations of piecewise expressions in the dro front end (ExpPiecewiseConvex), through the
+    # machinery of C03/C04
+    for ci in range(len(MEANING_CHAINS)):
+        for form in ('max', 'min'):
+            if tier == 'quick' and form == 'min' and ci not in (0, 2, 5):
+                continue
+            cs.append(dict(k='ME', name='chainE%d%s' % (ci, form)))
     return cs
 
 
 def run_case(case, ses):
-    {'S': run_S, 'PW': run_PW, 'T': run_T, 'bilinear': run_bilinear, 'M': run_M}[case['k']](case, ses)
+    {'S': run_S, 'PW': run_PW, 'T': run_T, 'bilinear': run_bilinear, 'M': run_M, 'ME': run_ME}[case['k']](case, ses)
+
+
+def run_ME(case, ses):
+    from . import c03, c04
+    from ..drogen import lookup
+    from ..dromodels import RealDRO
+    try:
+        with quiet():
+            r = RealDRO()
+            lookup(case['name'])(r)
+            r.m.do_math()
+    except Exception as e:
+        ses.stats.kinds['M-raises'] = ses.stats.kinds.get('M-raises', 0) + 1
+        return
+    c03.run_case(dict(name=case['name']), ses)
+    c04.run_case(dict(name=case['name']), ses)
 
 
 def run_M(case, ses):
